@@ -1732,6 +1732,8 @@ def run(ctx):
     stream = repo.cls(STREAM)
     field, setup = _decoder_field(ctx, stream)
     _check_encoding_table(ctx, setup, field)
+    from .common import header_name_key_rule
+    header_name_key_rule(ctx, 'C19-D2')
 
     uses = []
     for m in stream.methods.values():
